@@ -5,7 +5,7 @@ from hypothesis import strategies as st
 from ECAgent.Core import Model, ComponentNotFoundError
 from ECAgent.Environments import ConstantGenerator, DiscreteWorld, GridWorld, LineWorld, LookupGenerator
 from vf.engine import Violation, InvalidCase
-from vf.fixtures import check, expect_raises, sized_lists
+from vf.fixtures import check, expect_raises, sized_lists, wone_of
 
 PROPERTY = "C11"
 BUDGET = {"quick": 700, "thorough": 2500}
@@ -199,8 +199,8 @@ def _short(op):
 
 
 def strategy(tier):
-    ext = lambda n: st.one_of(st.just(0), st.integers(1, n))
-    shape = st.one_of(
+    ext = lambda n: wone_of(st.just(0), st.integers(1, n))
+    shape = wone_of(
         st.builds(lambda w, h, d: {"kind": "discrete", "w": w, "h": h, "d": d}, ext(6), ext(5), ext(4)),
         st.builds(lambda w, h, d: {"kind": "discrete", "w": w, "h": h, "d": d}, st.integers(2, 6), st.integers(2, 5), ext(3)),
         st.builds(lambda w, h, d: {"kind": "discrete", "w": w, "h": h, "d": d}, ext(4), st.integers(1, 5), st.integers(2, 4)),
@@ -214,8 +214,8 @@ def strategy(tier):
         "vtype": st.sampled_from(["int", "int", "float", "str"]),
         "lowdim": st.booleans(), "numpy": st.booleans()})
     name = st.integers(0, 3)
-    op = st.one_of(st.fixed_dictionaries({"op": st.just("add"), "name": name, "src": src}),
+    op = wone_of(st.fixed_dictionaries({"op": st.just("add"), "name": name, "src": src}),
                    st.fixed_dictionaries({"op": st.just("add"), "name": name, "src": src}),
                    st.fixed_dictionaries({"op": st.just("remove"), "name": name}),
                    st.fixed_dictionaries({"op": st.just("remove_unknown")}))
-    return st.builds(lambda s, ops: dict(s, ops=ops), shape, st.one_of(sized_lists(op, 1, 14), sized_lists(op, 5, 14)))
+    return st.builds(lambda s, ops: dict(s, ops=ops), shape, wone_of(sized_lists(op, 1, 14), sized_lists(op, 5, 14)))
